@@ -371,6 +371,8 @@ def opt_one(job):
         try:
             scen.materialise(w, sc['tree0'], sc['series'])
             for p, d in extra_files.items():
+                if p == '__nofile__':
+                    continue
                 if isinstance(d, tuple):        # ('symlink', target): move the file aside and link to it
                     real = os.path.join(w, d[1])
                     os.makedirs(os.path.dirname(real), exist_ok=True)
@@ -379,7 +381,7 @@ def opt_one(job):
                     os.symlink(os.path.relpath(real, os.path.dirname(os.path.join(w, p))), os.path.join(w, p))
                 else:
                     ws.write(w, p, d)
-            rc, so, se = ws.push(w, scen.flags(cfg, threads, v))
+            rc, so, se = ws.push(w, scen.flags(cfg, threads, v), nofile=extra_files.get('__nofile__'))
             snaps.append((v, rc, ws.snapshot(w), se[-300:]))
         finally:
             ws.rmws(w)
@@ -505,6 +507,18 @@ def check_c14(prop, tier):
         rep2 = b'x\n' * 6 + b'y\n' + b'x\n' * 6
         rep2_patch = b'--- a/r.c\n+++ b/r.c\n@@ -5,5 +5,5 @@\n x\n x\n-y\n+z\n x\n x\n'
         special.append(({'tree0': empty_tree, 'series': []}, {'r.c': rep2, 'patches/r.patch': rep2_patch, 'series': b'r.patch\n'}))
+        # many files, few file descriptors: a loader must not keep what it has read open (one patch with 150 sections and
+        # 150 patches with one section each; at most 48 open files)
+        many = {'__nofile__': 48}
+        sections = []
+        for i in range(150):
+            many['m/f%03d' % i] = scen.content([0])
+            sec = b'--- a/m/f%03d\n+++ b/m/f%03d\n' % (i, i) + scen.hunk_text({'cell': 1, 'from': 0, 'to': 1})
+            sections.append(sec)
+            many['patches/q%03d.patch' % i] = b'--- a/m/f%03d\n+++ b/m/f%03d\n' % (i, i) + scen.hunk_text({'cell': 1, 'from': 1, 'to': 2})
+        many['patches/all.patch'] = b''.join(sections)
+        many['series'] = b'all.patch\n' + b''.join(b'q%03d.patch\n' % i for i in range(150))
+        special.append(({'tree0': empty_tree, 'series': []}, many))
         for extra in text_specials(res, tier, work, rnd):
             special.append(({'tree0': empty_tree, 'series': []}, extra))
         cfg0 = {'backup': 'onfail', 'win': 100, 'dry': False}
@@ -516,7 +530,7 @@ def check_c14(prop, tier):
         for (sc, cfg, o, threads, extra), probs in zip(jobs, outs):
             for cat, msg in probs:
                 res.violation(cat.split(':')[0], 'presentation/loader options change the result: ' + msg + ' (threads %d)' % threads,
-                              {'tree0': sc['tree0'], 'series': sc['series'], 'cfg': cfg, 'threads': threads, 'extra_files': {k: (v.decode('latin-1') if isinstance(v, bytes) else list(v)) for k, v in extra.items()}})
+                              {'tree0': sc['tree0'], 'series': sc['series'], 'cfg': cfg, 'threads': threads, 'extra_files': {k: (v.decode('latin-1') if isinstance(v, bytes) else (list(v) if isinstance(v, tuple) else v)) for k, v in list(extra.items())[:40]}})
         res.cov['parts']['option-scenarios'].update({'scenarios': len(jobs), 'runs': len(jobs) * len(VARIANTS), 'variants': [' '.join(v) for v in VARIANTS]})
         res.cov['traces_validated_against_impl'] += len(jobs) * len(VARIANTS)
         res.cov['evaluations'] += len(jobs) * len(VARIANTS)
